@@ -356,6 +356,19 @@ def _in_face_domain(x, y, de, shrink=0.95):
         return True
     return across <= half_edge * (2 * de - along) / de * shrink
 
+def _polygon_in_domain(poly, de):
+    """the domain (pentagon plus the mirror triangles beyond its edges) is a star with a notch at every pentagon vertex, hence NOT convex:
+    every point of the polygon's boundary must be inside, not only its vertices (false alarm seen once in C14 thorough: an edge of a large
+    quad left the domain through the notch between two mirror triangles)"""
+    n = len(poly)
+    for i in range(n):
+        a, b = poly[i], poly[(i + 1) % n]
+        for k in range(41):
+            t = k / 40.0
+            if not _in_face_domain(a[0] + t * (b[0] - a[0]), a[1] + t * (b[1] - a[1]), de):
+                return False
+    return True
+
 def special_face_polygon(rng, drv):
     """small triangle/quad (1e-5.5 .. 1e-1.3 face widths) with a vertex at, or within a small fraction of its size of, a special point of the
     face plane: the face centre (10 triangles meet), a pentagon vertex, an edge midpoint, or a point of a triangle seam"""
@@ -380,7 +393,7 @@ def special_face_polygon(rng, drv):
         eta = rng.choice([0.0, 1e-3, 1e-2, 0.1, 0.3, -0.05])
         cx, cy = sp[0] + size * (1 - eta) * math.cos(u), sp[1] + size * (1 - eta) * math.sin(u)
         poly = [(cx + size * math.cos(u + math.pi + 2 * math.pi * i / k), cy + size * math.sin(u + math.pi + 2 * math.pi * i / k)) for i in range(k)]
-        if all(_in_face_domain(x, y, de) for (x, y) in poly):
+        if _polygon_in_domain(poly, de):
             return poly
     return None
 
@@ -417,6 +430,6 @@ def random_face_polygon(rng, drv):
             # beyond the edge: inside the mirror triangle (apex at 2*apothem on the normal)
             if across > half_edge * (2 * distance_to_edge - along) / distance_to_edge * 0.95:
                 ok = False
-        if ok:
+        if ok and _polygon_in_domain(poly, distance_to_edge):
             return poly
     return None
